@@ -110,6 +110,7 @@ def Skeleton.pinned : Skeleton where
   cvSliceElementwise := true
   cvFallbackError := true
   pxResultChecksValid := true
+  pxClosureIdPerInvocation := true
   pxCtxIsInvocationCtx := true
   pxArgsFreshPerInvocation := true
   clArgCountChecked := true
@@ -167,6 +168,11 @@ def Skeleton.pinned : Skeleton where
   tagMsgRequest := "request"
   tagMsgResponse := "response"
   locksShared := true
+  stateRegistry := ["wrappedChild", "R", "map[string]R", "*sync.Mutex", "*RegistryHooks"]
+  stateClosureManager := ["sync.Mutex", "map[string]func(args ...interface{}) (interface{}, error)"]
+  stateBroadcaster := ["map[string]channelWithContext[T]", "bool", "*sync.Mutex"]
+  stateChannel := ["chan T", "context.Context", "func(cause error)"]
+  stateWrappedChild := ["any", "*closureManager"]
   accesses := [
     { var := "Broadcaster.channels", site := "Close", write := false, locks := ["b.lock"], order := "" },
     { var := "Broadcaster.channels", site := "Close", write := true, locks := ["b.lock"], order := "" },
